@@ -1,7 +1,18 @@
-import Model.Submit
+import Proofs.SubmitRestart
 
-/-! # C06 — every committed block reaches the DA layer in order; the watermark is sound
-(first theorems; the loop invariant of `submitLoop` is under construction) -/
+/-!
+# C06 — every committed block reaches the DA layer in order; the watermark is sound
+
+Model: `Submit.submitLoop` (`block/submitter.go` `submitToDA` with the bookkeeping of `postSubmit`),
+`Submit.raiseWm` (`pendingBase.setLastSubmittedHeight`), `Submit.headersIter` / `Submit.dataIter` (one tick of the two
+submission loops), `Submit.restart`; executable and compared with the real code on every run (stream C06).
+The DA layer is the ghost double `daH` / `daBlobs : List (DA height × isData × block height)`.
+
+All theorems quantify over **every** list of DA answers (`script`: accepted, partially accepted, accepted with the
+acknowledgement lost, not included, in mempool, too big, error, cancelled), every item list, every node.
+`wm d` is the watermark of the kind being submitted (`d = false`: headers, `d = true`: data), `marks d` its
+DA-inclusion marks.
+-/
 namespace Spec.C06
 open Wire Chain Producer Submit
 
@@ -17,5 +28,234 @@ theorem raiseWm_persists (a : ANode) (h : Nat) (hgt : h > a.n.hdrWm) :
     (raiseWm a false h).1.n.store.getMeta Submit.hdrWmKey = some (le64 h) := by
   unfold raiseWm
   simp [hgt, Store.apply, Store.getMeta]
+
+/-! ## 1. the retry loop: monotone watermark, frame, writes, calls, soundness -/
+
+/-- **The watermark of the kind being submitted never decreases; the other kind's watermark, the other kind's marks,
+the DA-included height and the store's blocks / height / state are untouched: the only durable writes are
+`setMeta <watermark key>` with a value above the old watermark and at most the new one, and the store is the old
+store with exactly these writes applied.** -/
+theorem C06_monotone_and_frame (d : Bool) (fuel : Nat) (a : ANode) (items : List Item) (script : List DAAns) :
+    let r := submitLoop d fuel a items script [] []
+    wm d a ≤ wm d r.1 ∧ wm (!d) r.1 = wm (!d) a ∧ marks (!d) r.1 = marks (!d) a ∧ r.1.daInc = a.daInc ∧
+    r.1.n.store.blocks = a.n.store.blocks ∧ r.1.n.store.height = a.n.store.height ∧
+    r.1.n.store.state = a.n.store.state ∧ r.1.n.lastState = a.n.lastState ∧
+    r.1.n.store = a.n.store.applyAll r.2.1 ∧
+    (∀ w ∈ r.2.1, ∃ v, w = SW.setMeta (wmKey d) (le64 v) ∧ wm d a < v ∧ v ≤ wm d r.1) := by
+  obtain ⟨rem, pre, hi, _⟩ := submitLoop_loopInv d fuel a items script []
+  exact ⟨hi.wmMono, hi.frame.otherWm, hi.frame.otherMarks, hi.frame.daInc, hi.frame.blocks, hi.frame.height,
+    hi.frame.state, hi.frame.lastState, hi.store, hi.writes⟩
+
+/-- **Every `Submit` call carries the kind being submitted and exactly the current remainder — a suffix of the
+original item list (so consecutive heights stay consecutive) — and there are at most `fuel` calls
+(`maxSubmitAttempts` = 30 in the two submission loops).** -/
+theorem C06_calls (d : Bool) (fuel : Nat) (a : ANode) (items : List Item) (script : List DAAns) :
+    let r := submitLoop d fuel a items script [] []
+    r.2.2.1.length ≤ fuel ∧
+    ∀ c ∈ r.2.2.1, c.isData = d ∧ (∃ k, k < items.length ∧ c.heights = (items.drop k).map (·.height)) ∧
+      c.accepted ≤ c.heights.length := by
+  refine ⟨by simpa using submitLoop_calls_length d fuel a items script [] [], ?_⟩
+  obtain ⟨new, hn, hall⟩ := submitLoop_calls d fuel a items script [] []
+  rw [hn, List.nil_append]; exact hall
+
+/-- **Soundness of the watermark.**  With the items in increasing height order (what both submission loops pass),
+every item whose height the watermark moved past was stored by the DA double, at a DA height `dh` of this loop, in an
+accepting call, and the item's key is marked with exactly that DA height. -/
+theorem C06_watermark_sound (d : Bool) (fuel : Nat) (a : ANode) (items : List Item) (script : List DAAns)
+    (hsorted : items.Pairwise (fun x y => x.height < y.height)) :
+    let r := submitLoop d fuel a items script [] []
+    ∀ it ∈ items, wm d a < it.height → it.height ≤ wm d r.1 →
+      ∃ dh, a.daH ≤ dh ∧ dh < r.1.daH ∧ (dh, d, it.height) ∈ r.1.daBlobs ∧ (it.key, dh) ∈ marks d r.1 :=
+  submitLoop_sound d fuel a items script [] hsorted
+
+/-- **Nothing is marked that the DA double did not store**: the marks added by the loop are each the key of an item,
+with a DA height of this loop at which the DA double holds that item's blob; the DA double only grows, by blobs of the
+submitted kind and of submitted items; and the new watermark is the old one or the height of an acknowledged item. -/
+theorem C06_marks_sound (d : Bool) (fuel : Nat) (a : ANode) (items : List Item) (script : List DAAns) :
+    let r := submitLoop d fuel a items script [] []
+    (∃ nm, marks d r.1 = nm ++ marks d a ∧
+      ∀ e ∈ nm, ∃ it ∈ items, e.1 = it.key ∧ a.daH ≤ e.2 ∧ e.2 < r.1.daH ∧ (e.2, d, it.height) ∈ r.1.daBlobs) ∧
+    (∃ new, r.1.daBlobs = new ++ a.daBlobs ∧
+      ∀ e ∈ new, a.daH ≤ e.1 ∧ e.1 < r.1.daH ∧ e.2.1 = d ∧ ∃ it ∈ items, it.height = e.2.2) ∧
+    (wm d r.1 = wm d a ∨ ∃ l ∈ items, wm d r.1 = l.height) := by
+  obtain ⟨rem, pre, hi, _⟩ := submitLoop_loopInv d fuel a items script []
+  have hsub : ∀ it ∈ pre, it ∈ items := fun it h => by rw [hi.split]; exact List.mem_append_left _ h
+  obtain ⟨nm, h1, h2⟩ := hi.marksNew
+  refine ⟨⟨nm, h1, fun e he => ?_⟩, hi.blobs, ?_⟩
+  · obtain ⟨it, hit, r⟩ := h2 e he
+    exact ⟨it, hsub it hit, r⟩
+  · rcases hi.wmFrom with e | ⟨l, hl, e⟩
+    · exact Or.inl e
+    · exact Or.inr ⟨l, hsub l hl, e⟩
+
+/-! ## 2. retry until accepted -/
+
+/-- **Retry until accepted.**  After any prefix `fails` of answers shorter than the attempt bound — errors, time-outs,
+partial acceptance, lost acknowledgements; anything but a cancellation — an answer "all accepted" (also: the end of the
+script, an accepting DA layer) completes the submission: the loop reports `all = true` and the watermark is at least
+the last item's height — equal to it when the items are sorted and start above the old watermark. -/
+theorem C06_retry_until_accepted (d : Bool) (a : ANode) (items : List Item) (fails tail : List DAAns)
+    (htail : tail.headD (.ok none) = .ok none) (hnc : DAAns.canceled ∉ fails) (fuel : Nat) (hf : fails.length < fuel) :
+    let r := submitLoop d fuel a items (fails ++ tail) [] []
+    r.2.2.2 = true ∧ lastH items ≤ wm d r.1 ∧
+    (items ≠ [] → items.Pairwise (fun x y => x.height < y.height) → (∀ it ∈ items, wm d a < it.height) →
+      wm d r.1 = lastH items) := by
+  have hall := submitLoop_retry d fails tail htail hnc fuel hf a items [] []
+  obtain ⟨h1, h2⟩ := submitLoop_wm_all d fuel a items (fails ++ tail) []
+  refine ⟨hall, h1 hall, fun hne hs hgt => ?_⟩
+  have hge := h1 hall
+  obtain ⟨l, hl, hle⟩ := lastH_mem hne
+  rcases h2 with e | ⟨x, hx, e⟩
+  · have := hgt l hl; omega
+  · -- `x.height ≤` the last height, by sortedness
+    have hxl : x.height ≤ lastH items := by
+      unfold lastH
+      cases hg : items.getLast? with
+      | none => exact absurd (List.getLast?_eq_none_iff.mp hg) hne
+      | some z =>
+        have hz : items = items.dropLast ++ [z] := by
+          have := List.dropLast_concat_getLast hne
+          have hzz : items.getLast hne = z := by
+            have h' := List.getLast?_eq_some_getLast hne
+            rw [hg] at h'; simpa using h'.symm
+          rw [hzz] at this; exact this.symm
+        rw [hz] at hx hs
+        rcases List.mem_append.mp hx with hx | hx
+        · have := (List.pairwise_append.mp hs).2.2 x hx z (by simp)
+          simp; omega
+        · simp at hx; subst hx; simp
+    omega
+
+/-- **The header loop on a committed chain**: on a node whose store holds, for every height `h` in
+`(hdrWm, height]`, a block with `b.sh.hdr.height = h` (what `Producer.Inv.chain` gives for `hdrWm ≥ initialHeight − 1`),
+one iteration against a DA layer that accepts after fewer than 30 failures ends with `hdrWm = store.height` and outcome
+`done`; in particular with the empty script (a DA layer that accepts at once). -/
+theorem C06_headers_reach_chain_height (a : ANode) (fails tail : List DAAns)
+    (htail : tail.headD (.ok none) = .ok none) (hnc : DAAns.canceled ∉ fails) (hf : fails.length < maxSubmitAttempts)
+    (hok : ∀ h, a.n.hdrWm < h → h ≤ a.n.store.height → ∃ b, a.n.store.getBlock h = some b ∧ b.sh.hdr.height = h)
+    (hle : a.n.hdrWm ≤ a.n.store.height) :
+    (headersIter a (fails ++ tail)).1.n.hdrWm = (headersIter a (fails ++ tail)).1.n.store.height ∧
+    (a.n.hdrWm < a.n.store.height → (headersIter a (fails ++ tail)).2.2.2 = .done) :=
+  headersIter_reaches a fails tail htail hnc hf hok hle
+
+theorem C06_headers_reach_accepting_da (a : ANode)
+    (hok : ∀ h, a.n.hdrWm < h → h ≤ a.n.store.height → ∃ b, a.n.store.getBlock h = some b ∧ b.sh.hdr.height = h)
+    (hlt : a.n.hdrWm < a.n.store.height) :
+    (headersIter a []).1.n.hdrWm = (headersIter a []).1.n.store.height ∧ (headersIter a []).2.2.2 = .done := by
+  have := headersIter_reaches a [] [] rfl (by simp) (by decide) hok (by omega)
+  exact ⟨this.1, this.2 hlt⟩
+
+/-- **Soundness at the level of one header iteration**: every height the watermark moved past is a stored block whose
+header blob the DA double stored during this iteration, and whose hash is marked with that DA height. -/
+theorem C06_headers_sound (a : ANode) (script : List DAAns)
+    (hok : ∀ h, a.n.hdrWm < h → h ≤ a.n.store.height → ∃ b, a.n.store.getBlock h = some b ∧ b.sh.hdr.height = h) :
+    ∀ h, a.n.hdrWm < h → h ≤ (headersIter a script).1.n.hdrWm →
+      ∃ b dh, a.n.store.getBlock h = some b ∧ b.sh.hdr.height = h ∧ a.daH ≤ dh ∧ dh < (headersIter a script).1.daH ∧
+        (dh, false, h) ∈ (headersIter a script).1.daBlobs ∧ (b.sh.hdr.hash, dh) ∈ (headersIter a script).1.hMarks :=
+  headersIter_sound a script hok
+
+/-! ## 3. watermark ≤ chain height; persistence; restart -/
+
+/-- the header watermark never passes the chain height, for every DA answer list -/
+theorem C06_watermark_le_height (a : ANode) (script : List DAAns)
+    (hok : ∀ h, a.n.hdrWm < h → h ≤ a.n.store.height → ∃ b, a.n.store.getBlock h = some b ∧ b.sh.hdr.height = h)
+    (hle : a.n.hdrWm ≤ a.n.store.height) :
+    (headersIter a script).1.n.hdrWm ≤ (headersIter a script).1.n.store.height :=
+  headersIter_wm_le a script hok hle
+
+/-- **memory = metadata**: if the persisted watermarks equal the ones in memory before a submission loop (of either
+kind), they do afterwards -/
+theorem C06_persisted (d : Bool) (fuel : Nat) (a : ANode) (items : List Item) (script : List DAAns)
+    (h1 : Persisted false a) (h2 : Persisted true a) :
+    Persisted false (submitLoop d fuel a items script [] []).1 ∧ Persisted true (submitLoop d fuel a items script [] []).1 := by
+  obtain ⟨rem, pre, hi, _⟩ := submitLoop_loopInv d fuel a items script []
+  cases d with
+  | false => exact ⟨hi.persisted h1, hi.persisted_other h2⟩
+  | true => exact ⟨hi.persisted_other h1, hi.persisted h2⟩
+
+/-- **Restart reloads exactly the persisted watermarks**, hence (with the theorem above) the watermarks in memory after
+a restart equal those before it: they never decrease across a restart and nothing acknowledged is skipped or forgotten. -/
+theorem C06_restart_keeps_watermarks {c : Cfg} {a a' : ANode} {clean : Bool}
+    (h : restart c a a.n.store clean = some a')
+    (hp1 : Persisted false a) (hp2 : Persisted true a) (hb1 : a.n.hdrWm < 2 ^ 64) (hb2 : a.n.dataWm < 2 ^ 64) :
+    a'.n.hdrWm = a.n.hdrWm ∧ a'.n.dataWm = a.n.dataWm := by
+  obtain ⟨e1, e2, _⟩ := restart_wm h hp1 hp2 hb1 hb2
+  exact ⟨e1, e2⟩
+
+/-! ## 4. initial heights above 1 -/
+
+/-- full statement, every initial height ≥ 1: after any production run from a fresh start, one header iteration against
+an accepting DA layer brings the header watermark to the chain height -/
+def C06_full : Prop :=
+  ∀ (c : Cfg) (rs : List (SeqResp × ExecResp)), 1 ≤ c.initialHeight →
+    (headersIter { n := run c (freshNode c) rs } []).1.n.hdrWm = (run c (freshNode c) rs).store.height
+
+/-- **With an initial height above 1 nothing is ever submitted**: the pending range starts at height 1
+(`pendingBase` starts at watermark 0), which is never stored, so for every production run, every DA answer list and for
+ever, both iterations fail to fetch, issue no `Submit` call and leave the node unchanged. -/
+theorem C06_initial_height_above_one_never_submits (c : Cfg) (hih : 2 ≤ c.initialHeight)
+    (rs : List (SeqResp × ExecResp)) (a : ANode) (ha : a.n = run c (freshNode c) rs) (script : List DAAns) :
+    headersIter a script = (a, [], [], .fetchErr) ∧ dataIter a script = (a, [], [], .fetchErr) := by
+  obtain ⟨h1, h2⟩ := run_block_one_missing c hih rs
+  obtain ⟨w1, w2⟩ := run_wm c (freshNode c) rs
+  rw [← ha] at h1 h2 w1 w2
+  have w1' : a.n.hdrWm = 0 := w1
+  have w2' : a.n.dataWm = 0 := w2
+  exact ⟨headersIter_stuck a script 1 (by omega) h1 h2, dataIter_stuck a script 1 (by omega) h1 h2⟩
+
+def w3Cfg : Cfg := { chainId := "w", initialHeight := 3, genesisTime := 100, proposerAddr := [1], key := 1, signerAddr := [1] }
+def w3Run : List (SeqResp × ExecResp) := [(.batch [[1]] 200 [], .ok), (.batch [[2]] 300 [], .ok)]
+
+/-- **The full statement is false of the current code** (initial height 3; recorded finding
+`C06/…/initial-height`, replayed on the real node by stream C06). -/
+theorem C06_full_fails : ¬ C06_full := by
+  intro h
+  have h1 := h w3Cfg w3Run (by decide)
+  have h2 := run_block_one_missing w3Cfg (by decide) w3Run
+  have h3 := (run_wm w3Cfg (freshNode w3Cfg) w3Run).1
+  have h0 : (freshNode w3Cfg).hdrWm = 0 := rfl
+  rw [h0] at h3
+  generalize run w3Cfg (freshNode w3Cfg) w3Run = X at h1 h2 h3
+  rw [headersIter_stuck { n := X } [] 1 (by show X.hdrWm < 1; omega) h2.1 h2.2] at h1
+  have : X.hdrWm = X.store.height := h1
+  omega
+
+/-- the same, evaluated by the kernel on the witness: two blocks committed (heights 3, 4), nothing submitted -/
+example : (run w3Cfg (freshNode w3Cfg) w3Run).store.height = 4 ∧
+    (headersIter { n := run w3Cfg (freshNode w3Cfg) w3Run } []).2.2.2 = .fetchErr ∧
+    (headersIter { n := run w3Cfg (freshNode w3Cfg) w3Run } []).2.2.1.length = 0 := by
+  decide +kernel
+
+/-- **Partial statement** (everything except the refuted case): for every node that satisfies the producer's invariant
+and whose header watermark is at least `initialHeight − 1` — every node of a chain with initial height 1 — an iteration
+against a DA layer that accepts after fewer than 30 non-cancellation failures brings the watermark to the chain height. -/
+theorem C06_partial {c : Cfg} {a : ANode} (hi : Inv c a.n) (hw : c.initialHeight ≤ a.n.hdrWm + 1)
+    (hle : a.n.hdrWm ≤ a.n.store.height) (fails tail : List DAAns)
+    (htail : tail.headD (.ok none) = .ok none) (hnc : DAAns.canceled ∉ fails) (hf : fails.length < maxSubmitAttempts) :
+    (headersIter a (fails ++ tail)).1.n.hdrWm = (headersIter a (fails ++ tail)).1.n.store.height :=
+  (headersIter_reaches a fails tail htail hnc hf (hdrOK_of_inv hi hw) hle).1
+
+/-! ## non-vacuity -/
+
+def xCfg : Cfg := { chainId := "w", initialHeight := 1, genesisTime := 100, proposerAddr := [1], key := 1, signerAddr := [1] }
+/-- three blocks: the genesis block (empty), a block with a transaction, an empty block -/
+def xRun : List (SeqResp × ExecResp) :=
+  [(.batch [] 150 [], .ok), (.batch [[1]] 200 [], .ok), (.batch [] 300 [], .ok)]
+def xNode : ANode := { n := run xCfg (freshNode xCfg) xRun }
+
+/-- the hypotheses of `C06_partial` / `C06_headers_*` hold of a reachable node with three committed blocks -/
+example : Inv xCfg (run xCfg (freshNode xCfg) xRun) ∧ xCfg.initialHeight ≤ xNode.n.hdrWm + 1 ∧ xNode.n.store.height = 3 :=
+  ⟨run_inv (freshNode_inv xCfg (by decide)) _, by decide +kernel, by decide +kernel⟩
+
+/-- a DA outage (error, time-out, acknowledgement lost, one header accepted) followed by acceptance: four calls, the
+watermark reaches 3, the DA double holds the headers of 1, 2, 3 (1 twice: the lost acknowledgement) -/
+example : let r := headersIter xNode [.error, .notIncluded, .lost (some 1), .ok (some 1)]
+    r.1.n.hdrWm = 3 ∧ r.2.2.2 = .done ∧ r.2.2.1.length = 5 ∧
+    r.1.daBlobs.map (fun e => (e.1, e.2.2)) = [(3, 3), (3, 2), (2, 1), (1, 1)] := by
+  decide +kernel
+
+/-- a cancelled submission stops at once and is not counted as complete -/
+example : (headersIter xNode [.canceled]).2.2.2 = .incomplete ∧ (headersIter xNode [.canceled]).1.n.hdrWm = 0 := by
+  decide +kernel
 
 end Spec.C06
